@@ -476,7 +476,20 @@ func runLive(c *vrun.Case) vrun.Result {
 			up, err := conn.OpenUpstream(ctx, fmt.Sprintf("churn-%d", churn), iscp.WithUpstreamFlushPolicyImmediately(), iscp.WithUpstreamCloseTimeout(30*time.Second))
 			if err == nil {
 				up.WriteDataPoints(ctx, &message.DataID{Name: "churn", Type: "t"}, &message.DataPoint{ElapsedTime: 1, Payload: []byte("c")})
-				up.Close(ctx)
+				if churn%3 == 0 {
+					// an option of THIS close: it must not show up in any other stream's close request
+					up.Close(ctx, iscp.WithUpstreamCloseEnableCloseSession())
+				} else {
+					up.Close(ctx)
+				}
+			}
+			if churn%4 == 2 {
+				// metadata from a source node nobody subscribed to, addressed to a live downstream: dropped, nothing else
+				if lc := w.B.CurrentLink(); lc != nil {
+					if dss := w.B.Downs(); len(dss) > 0 {
+						lc.Send(&message.DownstreamMetadata{RequestID: message.RequestID(900000 + churn), StreamIDAlias: dss[0].Alias, SourceNodeID: "node-nobody-subscribed", Metadata: &message.BaseTime{Name: "stray", BaseTime: time.Unix(1, 0).UTC()}})
+					}
+				}
 			}
 			d, err := conn.OpenDownstream(ctx, []*message.DownstreamFilter{{SourceNodeID: "churn", DataFilters: []*message.DataFilter{{Name: "#", Type: "#"}}}})
 			if err == nil {
@@ -515,6 +528,20 @@ func runLive(c *vrun.Case) vrun.Result {
 	time.Sleep(2 * time.Millisecond)
 	ledger := w.B.Ledger()
 	bups := w.B.Ups()
+	for _, us := range bups {
+		// only churn streams with a cycle number divisible by 3 were closed with the close-session option
+		w.B.Lock()
+		cr := us.CloseReq
+		sess := us.SessionID
+		w.B.Unlock()
+		if cr == nil || cr.ExtensionFields == nil || !cr.ExtensionFields.CloseSession {
+			continue
+		}
+		var n int
+		if _, err := fmt.Sscanf(sess, "churn-%d", &n); err != nil || n%3 != 0 {
+			return vrun.Violation("the close request of a stream carries an option that was given to the Close of ANOTHER stream", "live-isolation:close-option-leaked", map[string]any{"session": sess})
+		}
+	}
 	byID := map[uuid.UUID]*broker.UpState{}
 	for _, us := range bups {
 		byID[us.ID] = us
